@@ -217,6 +217,16 @@ def run(ctx):
         for i in range(n):
             base = ctx.scratch(f"t{i}")
             files, dirs, excludes, helpers = gen_tree(ctx.rng)
+            # always present: a conftest three packages deep that star-imports a module two packages up (three leading dots)
+            files["dpk/__init__.py"] = ""
+            files["dpk/sub/inner/conftest.py"] = body("dpk/sub/inner/conftest.py", "from ...helper_three_dots import *")
+            files["dpk/helper_three_dots.py"] = body("dpk/helper_three_dots.py")
+            if i == 0 and "**/generated/**" not in excludes:
+                # the first tree always carries the '**/generated/**' pattern and is also placed under a directory of that name
+                excludes.append("**/generated/**")
+                files["generated/test_gen.py"] = body("generated/test_gen.py")
+                files["sub/generated/deep/test_gen2.py"] = body("sub/generated/deep/test_gen2.py")
+                files["pyproject.toml"] = "[tool.pytest-language-server]\nexclude = " + json.dumps(excludes) + "\n"
             broken = {}
             if ctx.rng.random() < 0.7:
                 d = ctx.rng.choice(dirs)
@@ -230,6 +240,8 @@ def run(ctx):
                     broken[h_[3]] = "non_utf8"        # one of several modules a conftest imports is not UTF-8
             exp = expected_indexed(files, excludes, broken)
             locs = ["plain/ws"] + ctx.rng.sample(ROOTS[1:], 2 if quick else 5)
+            if i == 0 and "generated/ws" not in locs:
+                locs[-1] = "generated/ws"
             base_snap = None
             for li, loc in enumerate(locs):
                 root = materialise(os.path.join(base, f"L{li}"), loc, files, broken)
